@@ -27,6 +27,7 @@ OUTSIDE = ['narrowing casts of 16-bit PCM into a requested 1-byte dtype (C cast 
            'file objects that return short reads before EOF (regular files and BytesIO do not)',
            'shorten-compressed payloads (C13)', 'header fields other than the mandatory ones; malformed field lines']
 ASSUMPTIONS = [
+    'the data section does not START with the shorten magic (the file is declared uncompressed); any later read block may begin with these four bytes (symbolic Boolean per block)',
     'file.read(n) returns min(n, remaining) bytes (io.BufferedReader / BytesIO contract)',
     'np.frombuffer(buf, dtype, count) element j = bytes [j*size,(j+1)*size) of buf in the given byte order (uninterpreted SAMP), ValueError if buf is too small',
     'fancy indexing TABLE[arr] is element-wise table look-up (uninterpreted TAB, tables themselves proved against G.711 separately)',
